@@ -2,7 +2,7 @@
    real ones). Definitions only. *)
 From Coq Require Import ZArith NArith List Bool Arith.
 From Coq Require Import Floats.SpecFloat.
-From Cfi Require Import Glue.Sx Py.PyStr Py.PyNum Py.PyBits.
+From Cfi Require Import Glue.Sx Py.PyStr Py.PyNum Py.PyBits Py.PyDate.
 Import ListNotations.
 Local Open Scope Z_scope.
 
@@ -31,5 +31,7 @@ Definition run_prim (arg : sx) : sx :=
   | 13 => L [SB (is_space (sxN a1)); Sopt SN (digit_val (sxN a1)); SB (is_bspace (sxN a1)); SB (num_space (sxN a1))]
   | 14 => L (map Sstr (split_lines (sxS a1)))
   | 15 => Sstr (strip is_bspace (sxS a1))
+  | 16 => Sopt Sdt (strptime (dec_fmt a1) (sxS a2))
+  | 17 => Sstr (strftime (dec_fmt a1) (dec_dt a2))
   | _ => L [I (-998)]
   end.
